@@ -142,7 +142,6 @@ func TestC18(t *testing.T) {
 			}
 		}
 	}
-	r.Floor("shares_exercised_under_accepted_ech", 4)
 	r.Floor("returning_hellos_offering_a_session", 100)
 	// (2) every share really works: pin the server to the share's group
 	type job struct {
@@ -284,6 +283,7 @@ func TestC18(t *testing.T) {
 	}
 	r.Floor("key_shares_observed", 1000)
 	r.Floor("shares_exercised", 60)
+	r.Floor("shares_exercised_under_accepted_ech", 4)
 	r.Floor("quic_hellos", 50)
 	r.Assume("X25519Kyber768Draft00 has no stock server: its server side is the verif hook H7 (ML-KEM-768 encapsulation + Kyber round-3 KDF written independently of the client's code)")
 }
